@@ -52,6 +52,17 @@ WBXML_DECLARE(WBXMLError) wbxml_tree_from_wbxml(WB_UTINY *wbxml,
                                                 WBXMLCharsetMIBEnum charset,
                                                 WBXMLTree **tree)
 {
+    return wbxml_tree_from_wbxml_embedded(wbxml, wbxml_len, lang, charset, 0, tree);
+}
+
+
+WBXML_DECLARE(WBXMLError) wbxml_tree_from_wbxml_embedded(WB_UTINY *wbxml,
+                                                         WB_ULONG wbxml_len,
+                                                         WBXMLLanguage lang,
+                                                         WBXMLCharsetMIBEnum charset,
+                                                         WB_ULONG embedded_depth,
+                                                         WBXMLTree **tree)
+{
     WBXMLParser *wbxml_parser = NULL;
 #if defined( WBXML_LIB_VERBOSE )
     WB_LONG error_index;
@@ -80,6 +91,7 @@ WBXML_DECLARE(WBXMLError) wbxml_tree_from_wbxml(WB_UTINY *wbxml,
     /* Init context */
     wbxml_tree_clb_ctx.error = WBXML_OK;
     wbxml_tree_clb_ctx.current = NULL;
+    wbxml_tree_clb_ctx.embedded_depth = embedded_depth;
     if ((wbxml_tree_clb_ctx.tree = wbxml_tree_create(WBXML_LANG_UNKNOWN, WBXML_CHARSET_UNKNOWN)) == NULL) {
         wbxml_parser_destroy(wbxml_parser);
         WBXML_ERROR((WBXML_PARSER, "Can't create WBXML Tree"));
@@ -227,6 +239,7 @@ WBXML_DECLARE(WBXMLError) wbxml_tree_from_xml(WB_UTINY *xml, WB_ULONG xml_len, W
     /* Init context */
     wbxml_tree_clb_ctx.current = NULL;
     wbxml_tree_clb_ctx.error = WBXML_OK;
+    wbxml_tree_clb_ctx.embedded_depth = 0;
     wbxml_tree_clb_ctx.skip_lvl = 0;
     wbxml_tree_clb_ctx.skip_start = 0;
     wbxml_tree_clb_ctx.xml_parser = xml_parser;
